@@ -23,11 +23,18 @@ class CaféError(ValueError):
     pass
 
 
+class BadStrError(Exception):
+    """an exception whose __str__ raises"""
+
+    def __str__(self):
+        raise RuntimeError("no str for you")
+
+
 LongNameError = type("L" + "o" * 230 + "ngError", (RuntimeError,), {"__module__": __name__})
 
 EXC_CLASSES = {"ValueError": ValueError, "KeyError": KeyError, "ZeroDivisionError": ZeroDivisionError,
                "MyError": MyError, "MyDeepError": MyDeepError, "CafeError": CaféError, "LongNameError": LongNameError,
-               "UnicodeDecodeErrorLike": AssertionError, "OSError": OSError}
+               "AssertionError": AssertionError, "OSError": OSError, "BadStrError": BadStrError}
 
 
 class Unsendable(object):
@@ -58,23 +65,32 @@ class RIThing(RemoteInterface):
         return int
 
 
+EXECUTED = []      # names of the remote methods that really ran, in order (reset per batch)
+
+
 class Plain(Referenceable):
     def remote_echo(self, x):
+        EXECUTED.append("echo")
         return x
 
     def remote_add(self, a, b=0):
+        EXECUTED.append("add")
         return a + b
 
-    def remote_boom(self, cls, msg):
-        raise EXC_CLASSES[cls](msg)
+    def remote_boom(self, cls, kind, n):
+        EXECUTED.append("boom")
+        raise EXC_CLASSES[cls](message([kind, n]))      # the text is built here, on the callee
 
     def remote_boom_noargs(self, cls):
+        EXECUTED.append("boom_noargs")
         raise EXC_CLASSES[cls]()
 
     def remote_unsendable_result(self, depth):
+        EXECUTED.append("unsendable_result")
         return nest(depth, Unsendable())
 
     def remote_text(self):
+        EXECUTED.append("text")
         return u"text"
 
 
@@ -84,12 +100,15 @@ from zope.interface import implementer
 @implementer(RIThing)
 class Typed(Referenceable):
     def remote_ints(self, a):
+        EXECUTED.append("ints")
         return len(a)
 
     def remote_nested(self, a):
+        EXECUTED.append("nested")
         return len(a)
 
     def remote_wrongresult(self, a):
+        EXECUTED.append("wrongresult")
         return "not an int"
 
 
@@ -118,6 +137,8 @@ def message(spec):
         return "x" * (n % 4) + u"\U0001F600" * n
     if kind == "nul":
         return "\x00\n\"" * n
+    if kind == "surrogate":      # a lone surrogate, as produced by surrogateescape'd file names: not encodable as UTF-8
+        return u"ab\udcffcd" * n
     raise ValueError(kind)
 
 
@@ -158,8 +179,12 @@ def issue(rrs, spec):
         return rrs["typed"].callRemote(meth, bad)
     if k == "mixed-keys":
         return rrs["plain"].callRemote("echo", {1: 2, 'a': 3})
+    if k == "arg-surrogate":        # a str that UTF-8 cannot encode, at nesting depth d
+        return rrs["plain"].callRemote("echo", nest(spec["depth"], u"ab\udcffcd"))
+    if k == "arg-deep":             # a list nested deeper than the interpreter's recursion limit
+        return rrs["plain"].callRemote("echo", nest(spec["depth"], 1))
     if k == "raise":
-        return rrs["plain"].callRemote("boom", spec["cls"], message(spec["msg"]))
+        return rrs["plain"].callRemote("boom", spec["cls"], spec["msg"][0], spec["msg"][1])
     if k == "raise-noargs":
         return rrs["plain"].callRemote("boom_noargs", spec["cls"])
     if k == "unknown-method":
@@ -224,6 +249,7 @@ def run_batch(specs, opts):
     """issue all calls of `specs` back to back (before any byte is delivered: the eventual-send queue holds the
     loopback writes), then let everything settle, then one more call.  -> dict(results, later, disconnected, ...)"""
     E.reset_clock()
+    del EXECUTED[:]
     n_err0 = len(E.logged_errors)
     tb, cb, rrs, targets = setup(opts)
     E.turn()
@@ -255,7 +281,7 @@ def run_batch(specs, opts):
                fired=fired, later=[describe(r, True) for r in later],
                disconnected=(bool(cb.disconnected), bool(tb.disconnected)),
                caller_bytes=tap_c.bytes(), callee_bytes=tap_t.bytes(), open0=open0, topen0=topen0,
-               waiting=len(cb.waitingForAnswers), active_local=len(tb.activeLocalCalls), escaped=escaped,
+               executed=list(EXECUTED), waiting=len(cb.waitingForAnswers), active_local=len(tb.activeLocalCalls), escaped=escaped,
                logged=len(E.logged_errors) - n_err0)
     return out
 
